@@ -60,6 +60,16 @@ CLAIMED.update({
   note="flushAll's loop over the table (all entries flushed) and the 'handlers only write their own connection's state' frame obligations are not yet under contract; isolation between databases rests on C08's per-store obligations. newDataStore/newDataStoreCommand/load are trusted contracts.",
   design="DESIGN.md §6 C14"),
 })
+CLAIMED.update({
+ "C06": dict(
+  text="Deductive proof of the keyspace discipline on the real store methods: (1) one type per key — every function that writes a key object's type tag or payload re-establishes the tag/payload invariant on that object at every exit (string tag <=> non-nil []byte payload, list tag <=> non-nil *storeList, hash/set tag <=> non-nil *redisDict, payload present => a type tag), the typed accessors return nil exactly for other types, and every object installed in a keyspace table is a key object carrying the store's newest version; (2) failed commands are inert — for every store method with a failure outcome (WRONGTYPE, wrong format, overflow, error pointer) that outcome implies that no key object, list node, table or deadline was written (ghost write bit); (3) clone (COPY) yields a well-formed object with the same type and deadline. COPY of lists/hashes/sets was broken and repaired.",
+  note="Not yet proved: 'no empty aggregate ever remains' for sets (SREM/SMOVE can leave an empty set — suspected defect, not yet under an obligation), the handlers' replies for DEL/EXISTS/TYPE/KEYS/RANDOMKEY/DBSIZE/SORT, glob matching, deep equality of COPY's result. RESTORE with forged flags violates the invariant and is reported as UNDECIDED (never proved). getStoreKey's 'stored values are key objects' is a trusted contract backed by the newest-version obligation on every keyspace store.",
+  design="DESIGN.md §6 C06"),
+ "C07": dict(
+  text="Deductive proof of the expiry discipline: the raw keyspace lookup (which ignores deadlines) may only be called from the four expiry-aware functions (call-site whitelist obligation on every call of getStoreKey in the package's contracted code); the expiry-aware lookups return a key only if its deadline has not passed at the time of the lookup (time is an input: every time.Now() is a fresh, monotone value); EXPIRE's NX/XX/GT/LT decision table, the reply (1 iff applied) and the stored deadline are proved against the table in the statement, and a missing key is left untouched. RENAME/COPY of expired keys and RANDOMKEY were expiry-blind and repaired.",
+  note="Not yet under contract: deadline arithmetic of SET EX/PX/EXAT/PXAT and EXPIRE* handlers (Duration overflow), TTL/PTTL/EXPIRETIME replies, keep-vs-clear TTL per mutator, DBSIZE counting expired keys, bucket iteration paths (KEYS/SCAN filter expiry in their callbacks, not checked here). Wall-clock agreement is outside this family.",
+  design="DESIGN.md §6 C07"),
+})
 NOT_BUILT = {}
 ALL = ["C%02d" % i for i in range(1, 21)]
 
